@@ -29,10 +29,13 @@ VC11(e) == LET d == Docs[e.di] IN
            abm == SplitABM(d, e.from, e.to, out) IN
        IF ~Valid(out) THEN "bad:ResultInvalid"
        ELSE IF ~Canon(out) THEN "bad:TextNotMerged"
+       \* no fit found: the operation records no step and leaves the document as it was
+       ELSE IF e.nsteps = 0 /\ out = d THEN "ok"
+       ELSE IF abm.ok /\ MiddleOK(abm.M, payload) /\ (e.op \in Deletions => TextOf(abm.M) = <<>>) THEN "ok"
+       ELSE IF RelaxedOK(d, e.from, e.to, out, payload) THEN "ok"
        ELSE IF ~abm.ok THEN "bad:SurroundingContentChanged"
        ELSE IF e.op \in Deletions /\ TextOf(abm.M) # <<>> THEN "bad:DeletionAddedText"
-       ELSE IF ~MiddleOK(abm.M, payload) THEN "bad:ContentInventedOrReordered"
-       ELSE "ok"
+       ELSE "bad:ContentInventedOrReordered"
 
 ----------------------------------------------------------------------------
 (* C18 *)
